@@ -34,12 +34,21 @@ def intOf (cs : List Char) : Option Int :=
 
 def intOfS (s : String) : Option Int := intOf s.toList
 
-def boundOf (s : String) : Option Bound :=
-  match s.toList with
+def bound1 (cs : List Char) : Option Bound :=
+  match cs with
   | ['U'] => some .unbounded
   | 'I' :: r => (natOf r).bind (fun n => if n < W then some (.included n) else none)
   | 'E' :: r => (natOf r).bind (fun n => if n < W then some (.excluded n) else none)
   | _ => none
+
+/-- `I1>I7`: a `RangeBounds` whose answer changes between calls. The code asks each bound once, so the model goes by the
+    FIRST answer (every part must be well formed, at most 4 parts: what the harness accepts). -/
+def boundOf (s : String) : Option Bound :=
+  let parts := s.splitOn ">"
+  if parts.length > 4 then none
+  else match parts.mapM (fun p => bound1 p.toList) with
+    | some (b :: _) => some b
+    | _ => none
 
 def stripPrefix (p : String) (s : List Char) : Option (List Char) :=
   let pl := p.toList
@@ -175,6 +184,8 @@ def parseOp (ws : List String) : Option Op :=
   | ["views", r] => some (.views r)
   | ["iter_views", it] => some (.iter_views it)
   | ["clone_from_iter", it, src] => some (.clone_from_iter it src)
+  | ["fill_spare", r, k, v] => (do let k ← natOfS k; let v ← intOfS v; pure (.fill_spare r false k v))
+  | ["fill_split_spare", r, k, v] => (do let k ← natOfS k; let v ← intOfS v; pure (.fill_spare r true k v))
   | ["size_hint", it] => some (.size_hint it)
   | ["len", it] => some (.len it)
   | ["as_slice", it] => some (.as_slice it)
@@ -265,6 +276,7 @@ def classOf : String → Option Cfg
   | "b1" => some ⟨1, 1, true⟩
   | "w4" => some ⟨4, 4, true⟩
   | "p4" => some ⟨4, 4, false⟩
+  | "p1" => some ⟨1, 1, false⟩
   | "s16" => some ⟨16, 8, true⟩
   | "a32" => some ⟨32, 32, true⟩
   | "a16" => some ⟨16, 16, true⟩
@@ -282,6 +294,7 @@ def idBound (w : World) : Op → Nat
   | .macro_list _ vs => vs.length
   | .macro_repeat _ _ n => 2 * n
   | .push .. | .insert .. | .remove_item .. => 1
+  | .fill_spare _ _ k _ => k
   | .resize r n _ => 1 + (n - (match w.get r with | some (.vec v) => (if v.isDefault then 0 else v.len) | _ => 0))
   | .resize_with r n _ => n - (match w.get r with | some (.vec v) => (if v.isDefault then 0 else v.len) | _ => 0)
   | .clone_from _ r =>
